@@ -46,8 +46,8 @@ Sum(f, S) == IF S = {} THEN 0 ELSE LET x == CHOOSE y \in S : TRUE IN f[x] + Sum(
 
 (* predicates on the peer's books; shared with the trace spec (there the domain grows with every opened stream) *)
 Rem(b, s, x)        == b[x] - s[x]
-MaySend(b, s, g, cg, cs, x) == Rem(b, s, x) > 0 /\ g[x] - s[x] > 0 /\ cg - cs > 0
-QuietP(b, s, g, cg, cs)     == \A x \in DOMAIN b : ~MaySend(b, s, g, cg, cs, x)
+MaySend(b, s, e, g, cg, cs, x) == ~e[x] /\ Rem(b, s, x) > 0 /\ g[x] - s[x] > 0 /\ cg - cs > 0
+QuietP(b, s, e, g, cg, cs)     == \A x \in DOMAIN b : ~MaySend(b, s, e, g, cg, cs, x)
 
 Init == /\ body \in [Streams -> Bodies]
         /\ iws \in Wins /\ cwin \in ConnWins
